@@ -280,7 +280,7 @@ class global_variables():
         self.dw = None
         self.w = None
 
-        attrs = [attr for attr in dir(gv) if not callable(getattr(gv, attr)) and not attr.startswith("__") and not (attr in ['sps', 'R', 'fs', 'dt', 'wavelength', 'f0', 'N', 't', 'w', 'dw'])]
+        attrs = [attr for attr in vars(self) if not (attr in ['sps', 'R', 'fs', 'dt', 'wavelength', 'f0', 'N', 't', 'w', 'dw'])]
         
         for attr in attrs:
             delattr(self, attr)
